@@ -569,6 +569,7 @@ package task
 // ---- C11: a dynamic variable is looked up, evaluated and recorded in ONE critical section, so that tasks
 // asking for the same sh: text concurrently get the same value as when they run alone
 //@ ghost var evalFailed bool scratch
+//@ ghost var envInKey bool scratch
 //@ ghost var dynCtx context.Context scratch
 //@ func (*Compiler).HandleDynamicVar
 //@   site execext.RunCommand#0 requires held(c.muDynamicCache)                                                 [C11,C18]
@@ -591,6 +592,11 @@ package task
 //@   site context.Background#1 ghost dynCtx := result
 //@   site execext.RunCommand#0 requires arg0 == dynCtx                                                         [C14,C11]
 //@   site mapstore#0 requires arg1.sh == key.sh && arg1.dir == key.dir                                         [C11]
+// ... and the ENVIRONMENT it ran in: the command of a dynamic variable sees the variables resolved so far as its
+// environment (sh: echo $X), so a value computed for one call must not be handed to a call whose variables differ.
+// envInKey: the key under which the result is stored covers the environment (trivially so when there is none)
+//@   init envInKey := len(e) == 0
+//@   site mapstore#0 requires envInKey                                                                         [C11]
 
 // ---- C11: compiling a task builds a fresh object graph ---------------------------------------------------
 // Every command, dependency and precondition put into the compiled task is a copy made during this call (so
